@@ -3,6 +3,7 @@ package checks
 import (
 	"bytes"
 	"fmt"
+	"math"
 	"math/big"
 	"time"
 
@@ -185,6 +186,11 @@ func runC15(r *core.Run) {
 	for k := 1; k < 32; k++ {
 		secs = append(secs, 1<<k-1, 1<<k, 1<<k+1)
 	}
+	// the last and the first 600 seconds of the field's range, second by second (any tolerance or rounding
+	// added to the end date in the field's own width wraps there), and the same around 2^31
+	for d := uint32(0); d < 600; d++ {
+		secs = append(secs, 1<<32-1-d, d, 1<<31-300+d)
+	}
 	for _, sec := range secs {
 		r.Evaluations.Add(1)
 		l2 := refmodel.Lease2{Hash: [32]byte{9}, TunnelID: 3, EndSec: sec}
@@ -192,6 +198,13 @@ func runC15(r *core.Run) {
 		if err != nil {
 			bad("parse", "lease.ReadLease2", err.Error())
 			continue
+		}
+		// expiry with a day's margin around the wall clock, for every end date of the sweep
+		if int64(sec) >= int64(now)+86400 && v.IsExpired() {
+			bad("is-expired", "Lease2.IsExpired", fmt.Sprintf("a Lease2 ending at %d s (a day or more after now=%d) is reported expired", sec, now))
+		}
+		if int64(sec) <= int64(now)-86400 && !v.IsExpired() {
+			bad("is-expired", "Lease2.IsExpired", fmt.Sprintf("a Lease2 that ended at %d s (a day or more before now=%d) is not reported expired", sec, now))
 		}
 		d := v.Date()
 		if v.EndDate() != sec || v.Time().Unix() != int64(sec) || !bytes.Equal(d[:], refmodel.BE(uint64(sec)*1000, 8)) {
@@ -406,6 +419,52 @@ func runC15(r *core.Run) {
 		}
 	}
 	evalSet([]uint64{0, 1<<63 - 1, 1 << 62})
+	// seconds -> milliseconds over the whole int64 range of the argument: 2^k and neighbours, the largest second count
+	// whose millisecond count fits (MaxInt64/1000) and its neighbours, every multiple of 2^64/1000 (where the product
+	// wraps to a small non-negative number) and neighbours, negatives. Either an error, or exactly seconds*1000.
+	{
+		var secsIn []int64
+		for k := 0; k <= 62; k++ {
+			secsIn = append(secsIn, 1<<k-1, 1<<k, 1<<k+1, -(1 << k))
+		}
+		lim := int64(math.MaxInt64 / 1000)
+		for d := int64(-3); d <= 3; d++ {
+			secsIn = append(secsIn, lim+d, math.MaxInt64+d-3)
+		}
+		wrap := new(big.Int).Div(new(big.Int).Lsh(big.NewInt(1), 64), big.NewInt(1000)) // 2^64/1000
+		for m := int64(1); m <= 499; m++ {
+			x := new(big.Int).Mul(wrap, big.NewInt(m))
+			if !x.IsInt64() {
+				break
+			}
+			for d := int64(-2); d <= 2; d++ {
+				if y := x.Int64() + d; y > 0 {
+					secsIn = append(secsIn, y)
+				}
+			}
+		}
+		for _, sec := range secsIn {
+			r.Evaluations.Add(1)
+			var d *data.Date
+			var err error
+			if pan, msg := core.Guard(func() { d, err = data.NewDateFromUnix(sec) }); pan {
+				bad("date-conversion-panics", "data.NewDateFromUnix", fmt.Sprintf("%d s: %s", sec, msg))
+				continue
+			}
+			if err != nil || d == nil {
+				if sec >= 0 && sec <= lim {
+					bad("seconds-to-milliseconds", "data.NewDateFromUnix", fmt.Sprintf("%d s is representable (%d000 ms < 2^63) but refused: %v", sec, sec, err))
+				}
+				continue
+			}
+			exact := new(big.Int).Mul(big.NewInt(sec), big.NewInt(1000))
+			got := new(big.Int).SetBytes(d[:])
+			if exact.Sign() < 0 || exact.BitLen() > 63 || got.Cmp(exact) != 0 {
+				bad("seconds-to-milliseconds", "data.NewDateFromUnix", fmt.Sprintf("%d s accepted and stored as %s ms; exact value %s ms (not representable below 2^63: must be refused)", sec, got, exact))
+			}
+		}
+		r.Note("seconds_to_milliseconds_instants", len(secsIn))
+	}
 	// result-independence of the date conversions themselves: convert, let the caller overwrite the Date it was
 	// handed, convert the same instant again (through every entry point that funnels into the same code)
 	for _, ms := range []int64{0, 1, 999, 1000, int64(now) * 1000, 1<<62 + 7} {
